@@ -24,17 +24,17 @@ func runes(s string) []int {
 }
 
 type regName struct {
-	K     string `json:"k"`
-	Op    string `json:"op"` // name | declared | unknown | seq | conc
-	Name  []int  `json:"name"`
-	OK    int    `json:"ok"`
-	Type  []int  `json:"type"`  // reflect type name of the produced value
-	Dup   int    `json:"dup"`   // how often the name is listed
-	Decl  [][]int `json:"decl"` // op=declared: exported DPT_* type names found in the package source
-	Prod  [][]int `json:"prod"` // op=declared: type names produced by the listed names
+	K     string    `json:"k"`
+	Op    string    `json:"op"` // name | declared | unknown | seq | conc
+	Name  []int     `json:"name"`
+	OK    int       `json:"ok"`
+	Type  []int     `json:"type"` // reflect type name of the produced value
+	Dup   int       `json:"dup"`  // how often the name is listed
+	Decl  [][]int   `json:"decl"` // op=declared: exported DPT_* type names found in the package source
+	Prod  [][]int   `json:"prod"` // op=declared: type names produced by the listed names
 	Steps []regStep `json:"steps"`
-	Ref   [][]Val `json:"ref"`  // seq: ref[t][p] = value of a fresh instance of type t after Unpack(payload p); ref[t][0] = zero value
-	Mism  int    `json:"mism"`
+	Ref   [][]Val   `json:"ref"` // seq: ref[t][p] = value of a fresh instance of type t after Unpack(payload p); ref[t][0] = zero value
+	Mism  int       `json:"mism"`
 }
 
 type regStep struct {
@@ -119,6 +119,14 @@ func TestC19(t *testing.T) {
 	}
 	defer o.Close()
 	rng := Rng()
+	// a caller may do what it likes with the list it got (filter it in place, relabel entries): the registry must not
+	// share state with it - the list judged below is obtained AFTER a first one has been scribbled over
+	first := dpt.ListSupportedTypes()
+	for i := range first {
+		first[i] = "junk-" + first[(i*7)%len(first)]
+	}
+	first = first[:0]
+	_ = append(first, "x.y", "x.y")
 	listed := dpt.ListSupportedTypes()
 	sort.Strings(listed)
 	count := map[string]int{}
@@ -142,6 +150,9 @@ func TestC19(t *testing.T) {
 		dr.Decl = append(dr.Decl, runes(d))
 	}
 	dr.Prod = prod
+	if dr.Prod == nil {
+		dr.Prod = [][]int{}
+	}
 	o.Rec(dr)
 	// unknown names
 	near := []string{"", " ", ".", "1", "1.", ".001", "1.1", "1.0010", "01.001", "1.001 ", " 1.001", "1,001", "9.1", "DPT_1001", "1.001.0", "1.00a", "１.００１", "14.12000", "0.000", "999.999", "1.000"}
@@ -168,6 +179,18 @@ func TestC19(t *testing.T) {
 		}
 		o.Rec(r)
 	}
+	// (the later phases work with the names that can actually be produced: a corrupt listing has been logged above)
+	var usable []string
+	for _, n := range listed {
+		if _, ok := dpt.Produce(n); ok {
+			usable = append(usable, n)
+		}
+	}
+	if len(usable) == 0 {
+		t.Logf("%d records (no producible name: later phases skipped)", o.n)
+		return
+	}
+	listed = usable
 	// independence: operation sequences over a few instances of two types
 	pairs := 200
 	if Thorough() {
@@ -265,6 +288,46 @@ func TestC19(t *testing.T) {
 		}(g)
 	}
 	wg.Wait()
+	// ... and family by family: all goroutines decode types of ONE main number at the same time (types of a family share
+	// their helpers: state shared between them shows when they run together), each result compared with the value the
+	// same payload gave sequentially
+	type key struct {
+		n string
+		p int
+	}
+	seqVal := map[key]Val{}
+	seqErr := map[key]bool{}
+	groups := map[int][]string{}
+	for _, n := range listed {
+		m, _ := splitName(n)
+		groups[m] = append(groups[m], n)
+		for p := 1; p <= 2; p++ {
+			d, _ := dpt.Produce(n)
+			err := d.Unpack(samplePayload(n, p))
+			seqVal[key{n, p}], seqErr[key{n, p}] = valOf(d), err != nil
+		}
+	}
+	for _, names := range groups {
+		var wg2 sync.WaitGroup
+		for g := 0; g < 16; g++ {
+			wg2.Add(1)
+			go func(g int) {
+				defer wg2.Done()
+				for i := 0; i < 40; i++ {
+					n := names[(g+i)%len(names)]
+					p := 1 + (g+i/3)%2
+					d, _ := dpt.Produce(n)
+					err := d.Unpack(samplePayload(n, p))
+					if (err != nil) != seqErr[key{n, p}] || (err == nil && !reflect.DeepEqual(valOf(d), seqVal[key{n, p}])) {
+						mu.Lock()
+						mism++
+						mu.Unlock()
+					}
+				}
+			}(g)
+		}
+		wg2.Wait()
+	}
 	cr := blankReg("conc")
 	cr.Mism = mism
 	o.Rec(cr)
